@@ -152,7 +152,7 @@ def run_unit(name, tier, seed):
 
 def replay(c):
     if c['kind'] == 'hang':
-        return (True, 'exceeded 5 s again') if hist.hangs(c['cls'], c['witness']['ops']) else (False, 'finished within the limit')
+        return (True, 'exceeded 30 s again') if hist.hangs(c['cls'], c['witness']['ops']) else (False, 'finished within the limit')
     if c['witness'].get('part') == 'a':
         m = lib.content_model(c['cls'])
         order = c['witness']['order']
